@@ -7,10 +7,11 @@ Components (Comp):  ModHash     `modhash`  records read back from the context + 
                     YlRoundTrip `ylrt`     yang-library entries == YangLib.describe, records of the rebuilt context ==
                                            YangLib.rebuild
 Oracles:            ModHashSens   one observable field of one module changed  =>  the hash changes (and equal observables
-                                  give equal hashes); the skipped features of the `fi` defect are tagged yl-hash-fi
+                                  give equal hashes); any insensitivity is a violation (the former `fi` defect, fixed in
+                                  /repo c8adb05, stays as regression cases)
                     ModHashConcat different module sets whose hashed strings concatenate to the same bytes (yl-hash-concat)
-                    ChangeCount   every successful operation that changes the observable changes the counter
-                                  (LY_CTX_EXPLICIT_COMPILE: yl-cc-explicit-compile)
+                    ChangeCount   every successful operation that changes the observable changes the counter, also under
+                                  LY_CTX_EXPLICIT_COMPILE (fixed in /repo d4e18d7; regression cases kept)
                     YlOracle      data valid, rebuild succeeds, same records, same compiled modules, same hash, content-id
 """
 from props.comps import Comp
@@ -117,14 +118,6 @@ def gen_set(rng, n_impl=None, max_sub=2, imports=True):
 
 def line_of(cmd, opts, ms, more=()):
     return "\t".join([cmd, str(opts)] + [enc_mod(m) for m in ms] + list(more))
-
-
-def fi_at(ms, j):
-    """value of the never reset feature iterator index when the hash function reaches module j"""
-    fi = 0
-    for m in ms[:j]:
-        fi = max(fi, len(m["groups"]))
-    return fi
 
 
 # fixed regression sets: the witnesses of the Coq development
@@ -241,14 +234,17 @@ def mutate_one(rng, ms):
 class ModHashSens:
     """C19 on the implementation: changing the name, revision, implemented state or one enabled feature of any one
     module, or adding a module, changes ly_ctx_get_modules_hash(); an unobservable change (name of a disabled feature)
-    does not.  Features skipped because the feature iterator index is never reset are tagged yl-hash-fi."""
+    does not.  Regression: the witnesses of the former `fi` defect (features of later modules were skipped)."""
     name = "modhash-sens"
     driver = "t_yl"
 
     def gen(self, rng, tier, scale=1.0):
         L = []
         fs = fixed_sets()
-        fixed = [(fs[0], fs[1])]
+        s2b = dict(fs[3][1], groups=[[("c", False)], [("d", True)], [("e", True)]])
+        s2c = dict(fs[3][1], groups=[[("c", True)], [("d", False)], [("e", True)]])
+        fixed = [(fs[0], fs[1]), ([fs[3][0], fs[3][1], fs[3][2]], [fs[3][0], s2b, fs[3][2]]),
+                 ([fs[3][0], fs[3][1], fs[3][2]], [fs[3][0], s2c, fs[3][2]])]
         n = int((30000 if tier == "thorough" else 1500) * scale)
         for i in range(n + len(fixed)):
             if i < len(fixed):
@@ -271,14 +267,10 @@ class ModHashSens:
             if w[0] != w[1]:
                 return (None, "equal observables but hashes %s" % out)
             return None
-        if w[0] != w[1]:
-            return None
-        # different observables, equal hashes: only the features that the never reset iterator index skips are known
-        if len(a) == len(b) and all(x[:3] == y[:3] and len(x[3]) == len(y[3]) for x, y in zip(oa, ob)):
-            diff = [(j, g) for j in range(len(a)) for g in range(len(oa[j][3])) if oa[j][3][g] != ob[j][3][g]]
-            if diff and all(g < fi_at(a, j) for j, g in diff):
-                return ("yl-hash-fi", "enabled features of module/feature array %s differ, hash %s for both" % (diff, w[0]))
-        return (None, "different observables, hash %s for both" % w[0])
+        if w[0] == w[1]:
+            diff = [j for j in range(min(len(oa), len(ob))) if oa[j] != ob[j]]
+            return (None, "different observables (modules %s), hash %s for both" % (diff, w[0]))
+        return None
 
 
 def concat_pairs(rng, n):
@@ -356,7 +348,8 @@ def feat_spec(rng, m):
 class ChangeCount:
     """C19 on the implementation: after every successful ly_ctx_load_module / lys_set_implemented / ly_ctx_compile that
     changes the module set, the implemented state or the enabled features, ly_ctx_get_change_count() differs from
-    its value before.  With LY_CTX_EXPLICIT_COMPILE the counter only moves at ly_ctx_compile: yl-cc-explicit-compile."""
+    its value before - also with LY_CTX_EXPLICIT_COMPILE, where nothing is compiled before ly_ctx_compile (regression
+    of the defect fixed in /repo d4e18d7)."""
     name = "change-count"
     driver = "t_yl"
 
@@ -393,9 +386,7 @@ class ChangeCount:
         for op, r in zip(ops, w[1:]):
             rc, c0, c1, added, changed = r.split(":")
             if rc == "0" and (changed == "1" or added != "0") and c0 == c1:
-                if (opts & EXPLICIT) and added == "0" and op[0] in "LI":
-                    return ("yl-cc-explicit-compile", "op %s changed the features / implemented state, counter stays %s" % (op, c0))
-                return (None, "op %s changed the context (added %s), counter stays %s" % (op, added, c0))
+                return (None, "op %s changed the context (added %s, options %d), counter stays %s" % (op, added, opts, c0))
         return None
 
 
